@@ -96,10 +96,10 @@ DESC = {
 def main():
     only = sys.argv[1:]
     for pid in sorted(os.listdir(SEED)):
-        out = os.path.join(SEED, pid, "out")
-        if not os.path.isdir(out):
-            continue
-        for v in "ab":
+        for v in "abcd":
+            out = os.path.join(SEED, pid, "out" if v in "ab" else "out2")
+            if not os.path.isdir(out):
+                continue
             key = f"{pid}-{v}"
             if only and key not in only and pid not in only:
                 continue
